@@ -844,9 +844,24 @@ def run(ctx):
         o = nsphere_oracle(dim, n, s)
         if o and ctx.violation(o[0], o[1], {"nsphere": [dim, n]}):
             found += 1
+    # oracle-only sweep over EVERY n_points in 3..400 (2-D models: point count, distinct equally spaced angles, distance, max clause)
+    sweep_specs = [gen_spec(rng, structure=rng.choice(cond_structures(2))) for _ in range(2)]
+    nsweep = 0
+    for n_pts in range(3, ctx.n(401, 1201)):
+        sp = dict(sweep_specs[n_pts % 2], n_points=n_pts, kind="iform" if n_pts % 3 else "isorm")
+        _, _, o, _ = run_spec(sp)
+        nsweep += 1
+        if o is not None and found < 8:
+            small = shrink(sp, o[0].get("clause"))
+            _, _, o2, _ = run_spec(small)
+            o2 = o2 or o
+            if ctx.violation(o2[0], "%s contour (n_points sweep): %s" % (sp["kind"].upper(), o2[1]), small):
+                found += 1
+    ctx.cov["evaluations"] += nsweep
+    ctx.notes["n_points_sweep"] = "every n_points in 3..%d on two 2-D models (oracle only)" % (ctx.n(401, 1201) - 1)
     ctx.cov["rule"] = ("random GlobalHierarchicalModels: n_dim 2-4, every admissible conditional_on (all 32 structures first), 9 families "
                        "(7 shipped + ScipyDistribution(gamma) + an algebraic duck-typed one), fixed/dependent parameter subsets, 9 dependence shapes "
-                       "incl. chained; IFORM and ISORM; alpha log-uniform in [1e-8, 0.5] + end points; n_points 3-40; non-trivial = at least one "
+                       "incl. chained; IFORM and ISORM; alpha log-uniform in [1e-8, 0.5] + end points; n_points 3-40 in the correspondence and every n_points in 3..400 through the oracle; non-trivial = at least one "
                        "conditional variable and a contour whose points are not all equal; distinct = hash of the specification")
     ctx.cov["trusted_base"] = ["Coq 8.16.1 kernel + vm_compute (primitive floats)", "harness tools/harness/c01.py (generators, recorders, comparison)",
                                "scipy norm/chi2/family cdf-ppf, numpy cos/sin/RandomState.normal, NSphere forces/potential as recorded oracles",
